@@ -118,7 +118,7 @@ CLAIMED = {
              "preserved by every update() and hence along every run with monotone time; consequently alive only first, subscribe "
              "only after alive and once, list/dump items only after both and ≥ 2 s after the subscription; connection loss or "
              "session reset returns to Connect; state moves only along the transition table. Run: fault histories (drops with "
-             "session present/absent, API reset, clock advances straddling 2 s, withheld acks) against the real client. source_update_is_model: MqttClient::update as TRANSLATED from miniconf_mqtt/src/lib.rs (state dispatch over the extracted transition table, guard timed_out, action start_timeout; sub-procedures as environment) equals the step function of the model and never panics by itself.",
+             "session present/absent, API reset, clock advances straddling 2 s, withheld acks) against the real client. source_update_is_model: MqttClient::update as TRANSLATED from miniconf_mqtt/src/lib.rs (state dispatch over the extracted transition table, guard timed_out, action start_timeout; sub-procedures as environment) equals the step function of the model and never panics by itself. source_update_composed_is_model: the same with dump(None), iter_list and iter_dump in their translated form (loops run as written) instead of the model's functions.",
         note="The CONNECT will (retained, empty, alive topic) is configuration, checked by the broker stub's decoder only. Wall "
              "clock = mock clock.",
         tech="Lean 4 invariant proof by induction over observation sequences + refinement check + packet-log oracle"),
